@@ -25,7 +25,7 @@ def gen(tier, seed):
     from harness_fields import FIELD_NAMES
     for f in FIELD_NAMES:
         add("dim_%s" % f, "c20-dimension:%s" % f, "wrong_dimension_rejected(%r, s, t, q)" % f, ["pre: -3 <= s <= 3 and -2 <= t <= 2 and -2 <= q <= 2"],
-            "a quantity whose dimension vector is not that of the field '%s' is refused (every vector of [-3,3]x[-2,2]x[-2,2]; the right one accepted)" % f, "s: int, t: int, q: int",
+            "a quantity whose dimension vector is not that of the field '%s' is refused, whether written in a foreign units system or in the receiving object's own (every vector of [-3,3]x[-2,2]x[-2,2]; the right one accepted)" % f, "s: int, t: int, q: int",
             viol="a quantity of the wrong dimension is accepted for field %s" % f)
     for kind in ("space", "time", "quantity"):
         add("symbol_%s" % kind, "c20-unit-symbol", "bad_symbol_rejected(%r, sym)" % kind, ["pre: 1 <= len(sym) <= 3 and all(c in 'mskhoulcdµ' for c in sym)"],
@@ -68,7 +68,7 @@ def run(rec):
     from ..common import VERIF
     # field names are needed to generate the conditions
     with open(os.path.join(pysym.gen_dir(), "harness_fields.py"), "w") as fh:
-        fh.write("FIELD_NAMES = ['density', 'D', 'density_env', 'D_env', 'cell_vol', 'node_volume', 'edge_surface', 'edge_distance', 'time_step', 't_max', 'sampling_interval', 't_sample', 'state', 'set_state']\n")
+        fh.write("FIELD_NAMES = ['density', 'D', 'density_env', 'D_env', 'cell_vol', 'node_volume', 'edge_surface', 'edge_distance', 'time_step', 't_max', 'sampling_interval', 't_sample', 'state', 'set_state', 't_sample_list', 'state_list', 'unitarray_list']\n")
     sys.path.insert(0, pysym.gen_dir())
     rec.assume("the offending value is the quantified parameter: strings of bounded length over a stated alphabet and unbounded integers are explored by CrossHair; dimension vectors, indices, sizes and positions in finite boxes are enumerated exhaustively in plain CPython (recorded per condition)")
     rec.assume("rate constants of the wrong order are decided by C19; coarse-graining maps are also decided (accepted iff valid, larger shapes) by C16")
